@@ -10,3 +10,6 @@ package iocommon
 //@   ensures identical_file_is_not_rewritten: called(bytes.Equal) && lastResult(bytes.Equal) ==> !called(os.WriteFile) && result == nil
 //@   ensures skipped_only_when_compared_equal: !called(os.WriteFile) ==> called(os.ReadFile) && lastResult(os.ReadFile).r1 == nil && called(bytes.Equal) && lastResult(bytes.Equal)
 //@   ensures write_error_propagates: errSeen(os.WriteFile) ==> result != nil
+
+// Output and diagnostics may not depend on the iteration order of a Go map (C12): decided per `range` over a map.
+//@ map-order C12 package
